@@ -22,7 +22,10 @@ RULE = ("operations: c03.seal = real Encrypted.Serialize (random 256-byte keys, 
         "against the specification; c03.userial/urt/udeser = Unencrypted.Serialize / DeserializeUnencrypted; c03.route / "
         "c03.uroute = a server-sealed packet / unencrypted message as one frame over loopback through the real "
         "transport.ReadMsg, msg_ids over the whole 64-bit range (every boundary value with both server parities and a "
-        "client parity, random ids); c03.par = 2 / 8 / 32 clients of one process sealing and opening at the same time, "
+        "client parity, random ids); c03.session = ONE transport reading a sequence of 2..12 server packets (the same packet "
+        "twice and three times in a row, again later, the same msg_id sealed anew with other content, unencrypted "
+        "messages and refused msg_ids in between; fixed shapes and random walks), each packet judged as a c03.route of "
+        "its own; c03.par = 2 / 8 / 32 clients of one process sealing and opening at the same time, "
         "every packet judged by the specification's server (a fixed line when no call disturbs another). distinct = "
         "distinct operation lines; every line is also run through the Lean model (executable SHA-1/AES/IGE) and compared")
 
